@@ -293,8 +293,8 @@ def run(tier):
     chk.assumptions = [
         'C07_wf quantifies over programs that do not themselves name a __bareScript* label in a label/jump line (user_clean); '
         'the oracle skips the label clauses for generated texts that do',
-        'C07_schema_partial: operators returned by parse_expression are assumed to be in the schema enums (checked by vm_compute '
-        'on every correspondence case and by validate_script on every generated program)',
+        'C07_schema (full, no premise): script_schema is a hand reading of BARE_SCRIPT_TYPES; the real validate_script is run by '
+        'the oracle on every generated program, script_schema under vm_compute on every correspondence case',
         'execution oracle: only the error "Unknown jump label" for a reserved label is judged; other runtime errors (statement limit, '
         'undefined function) are outside C07',
     ]
